@@ -966,8 +966,81 @@ struct DriverT {
     for (const auto& k : in) do_get(k);
   }
 
+  // byte-level seek cases of one node of every class: children at chosen key bytes (0x00 and
+  // 0xFF included most of the time, gaps in between), then a scan_from in both directions for
+  // every bound whose byte at that node is a child byte, a neighbour of one, 0, 1, 254 or 255
+  // (directed at begin/last/gte_key_byte/lte_key_byte of each class; ArtSeq's seek case
+  // analysis: below all, between each pair of, above all children)
+  void gen_bytes() {
+    const std::size_t len = kIsKv ? 2 + rng.below(7) : 8;
+    const std::size_t depth = rng.below(len);
+    Bytes base(len);
+    for (auto& b : base) b = static_cast<std::uint8_t>(rng.below(256));
+    static const int sizes[] = {3, 5, 12, 17, 30, 49, 90};
+    const int n = sizes[rng.below(7)];
+    std::set<int> bytes;
+    if (rng.chance(75)) bytes.insert(0);
+    if (rng.chance(75)) bytes.insert(255);
+    while (static_cast<int>(bytes.size()) < n) {
+      // clustered, so that gaps next to 0x00 / 0xFF occur
+      const int c = static_cast<int>(rng.below(256));
+      bytes.insert(rng.chance(50) ? c : 8 + static_cast<int>(rng.below(240)));
+    }
+    // an entry above and below the node so that falling off it has somewhere to land
+    if (depth > 0) {
+      for (int dlt : {-1, 1}) {
+        Bytes s = base;
+        s[depth - 1] = static_cast<std::uint8_t>(s[depth - 1] + dlt);
+        if (insert_allowed(s)) do_insert(s, 1);
+      }
+    }
+    for (int b : bytes) {
+      Bytes k = base;
+      k[depth] = static_cast<std::uint8_t>(b);
+      if (insert_allowed(k)) do_insert(k, pick_vlen());
+    }
+    // a node that reached its class by shrinking keeps holes: remove a few, sometimes
+    if (rng.chance(50)) {
+      int cnt = 0;
+      for (int b : bytes) {
+        if (rng.chance(15) && cnt < 6 && b != 0 && b != 255) {
+          Bytes k = base;
+          k[depth] = static_cast<std::uint8_t>(b);
+          try_remove(k);
+          ++cnt;
+        }
+      }
+    }
+    std::set<int> cand{0, 1, 254, 255};
+    for (int b : bytes) {
+      cand.insert(b);
+      if (b > 0) cand.insert(b - 1);
+      if (b < 255) cand.insert(b + 1);
+    }
+    Bytes other = base;
+    other[depth] = static_cast<std::uint8_t>(rng.below(256));
+    for (int b : cand) {
+      for (int fill : {0x00, 0xFF}) {
+        Bytes bd(base.begin(), base.begin() + static_cast<long>(depth));
+        bd.push_back(static_cast<std::uint8_t>(b));
+        bd.resize(len, static_cast<std::uint8_t>(fill));
+        if constexpr (kIsKv) {
+          bool bad = false;
+          for (const auto& k : shadow) {
+            const auto l = vh::lcp(bd, k);
+            if ((l == bd.size() || l == k.size()) && bd != k) bad = true;
+          }
+          if (bad) continue;
+        }
+        do_scan(1, bd, {}, true, 0, 0);
+        do_scan(1, bd, {}, false, rng.chance(30) ? 2 : 0, 0);
+        if (rng.chance(25)) do_scan(2, bd, other, true, 0, static_cast<int>(rng.below(3)));
+      }
+    }
+  }
+
   void run_history(int which, long nops) {
-    static const char* names[] = {"dense", "sparse", "deep", "words", "walker", "clear", "tiny", "slots"};
+    static const char* names[] = {"dense", "sparse", "deep", "words", "walker", "clear", "tiny", "slots", "bytes"};
     reset(names[which]);
     switch (which) {
       case 0: gen_dense(nops); break;
@@ -977,6 +1050,7 @@ struct DriverT {
       case 4: gen_walker(thorough ? (rng.chance(50) ? 256 : 60) : (rng.chance(25) ? 52 : 20)); break;
       case 5: gen_clear_reuse(nops); break;
       case 7: gen_slots(); break;
+      case 8: gen_bytes(); break;
       default: gen_tiny(); break;
     }
     // final sweep: get of every key in the pool happened during mix; finish with a drain
@@ -1075,7 +1149,7 @@ int main(int argc, char** argv) {
       std::fclose(in);
     } else {
       for (long h = 0; h < histories; ++h) {
-        d.run_history(static_cast<int>(h % 8), nops);
+        d.run_history(static_cast<int>(h % 9), nops);
         if (faults) d.do_length_errors();
       }
     }
